@@ -253,7 +253,15 @@ func runOne(i int, seed uint64, cfg *config, tot *totals) {
 		var hang bool
 		mpxAlone, rpcAlone, hang = tr.burst(plan, aloneTimeout)
 		if hang || !mpxAlone.allOK() || !rpcAlone.allOK() {
-			errs = append(errs, "traffic-alone-failed:mpx="+token(mpxAlone.String(), 40)+":rpc="+token(rpcAlone.String(), 60))
+			what := "traffic-alone-failed:mpx=" + token(mpxAlone.String(), 40) + ":rpc=" + token(rpcAlone.String(), 60)
+			// a burst that does not finish in time on a busy machine is a problem of the run; a call
+			// that returns a wrong status, a wrong echo or panics although nothing else is going on
+			// is the library failing on its own (e.g. a call seeing the remains of an earlier one)
+			if hang || strings.Contains(what, "timeout") || strings.Contains(what, "cancelled") {
+				errs = append(errs, what)
+			} else {
+				viols = append(viols, what)
+			}
 		} else {
 			trafficOK = true
 			if d := time.Duration(concFactor)*time.Since(t1) + time.Second; d > concTimeout {
